@@ -365,7 +365,7 @@ func (ti *TypeInfo) WF(v *Term, t types.Type, alloc *Term) []*Term {
 		}
 		ref, off, ln, cp := Sel("s-ref", v), Sel("s-off", v), Sel("s-len", v), Sel("s-cap", v)
 		if ti.light {
-			out = append(out, Le(IntLit(0), ref), Le(IntLit(0), off), Le(IntLit(0), ln), Le(ln, cp))
+			out = append(out, Le(IntLit(0), ref), Le(IntLit(0), off), Le(IntLit(0), ln), Le(ln, cp), Implies(Eq(ref, IntLit(0)), Eq(cp, IntLit(0))))
 		} else {
 			out = append(out, Le(IntLit(0), ref), Le(IntLit(0), off), Le(IntLit(0), ln), Le(ln, cp), Le(cp, IntLitBig(maxLen)), Le(off, IntLitBig(maxLen)),
 				Implies(Eq(ref, IntLit(0)), Eq(cp, IntLit(0))))
